@@ -37,13 +37,25 @@ func runBatch(tier string, seed int64) {
 			o     outcome
 		}
 		out := make([]res, G)
+		reps := 1
+		if conc {
+			reps = 30 // every worker encodes its chunk again and again while its neighbours do the same
+		}
 		one := func(i int) {
 			ent := buf[i*stride : i*stride+size]
 			out[i].o = guarded(func() {
-				out[i].out, out[i].err = bip39.NewMnemonicByEntropy(ent, bip39.Language(lang))
-				if out[i].err == nil {
-					out[i].cerr = bip39.CheckMnemonic(out[i].out, bip39.Language(lang))
-					out[i].valid = bip39.IsMnemonicValid(out[i].out, bip39.Language(lang))
+				for k := 0; k < reps; k++ {
+					o, e := bip39.NewMnemonicByEntropy(ent, bip39.Language(lang))
+					var ce error
+					v := false
+					if e == nil {
+						ce = bip39.CheckMnemonic(o, bip39.Language(lang))
+						v = bip39.IsMnemonicValid(o, bip39.Language(lang))
+					}
+					// all repetitions should agree; what is logged is the first one - or the first that does not validate
+					if k == 0 || (out[i].cerr == nil && out[i].err == nil && (e != nil || ce != nil || !v)) {
+						out[i].out, out[i].err, out[i].cerr, out[i].valid = o, e, ce, v
+					}
 				}
 			})
 		}
